@@ -83,10 +83,32 @@ pub fn shapes() -> Vec<Vec<usize>> {
         out.push(vec![1, n]);
         out.push(vec![n, 1]);
     }
+    // storage boundaries of `Name` (TinyVec inline capacity: 32 label octets, 24 label ends):
+    // every constructor / combinator crosses them in both directions
+    for s in inline_boundary_shapes() {
+        out.push(s);
+    }
+    // more labels than any name can hold (the `labels.len() > 255` arm of from_labels)
+    out.push(vec![1; 255]);
+    out.push(vec![1; 256]);
+    out.push(vec![1; 300]);
     out.retain(|s| !s.is_empty());
     out.sort();
     out.dedup();
     out
+}
+
+/// Label-length vectors around the inline/heap boundary of `Name`'s two TinyVecs.
+pub fn inline_boundary_shapes() -> Vec<Vec<usize>> {
+    let mut v: Vec<Vec<usize>> = vec![vec![31], vec![32], vec![33], vec![16, 15], vec![16, 16], vec![16, 17], vec![2; 16], vec![1; 23], vec![1; 24], vec![1; 25]];
+    for n in [22usize, 23, 24] {
+        for last in [8usize, 9, 10] {
+            let mut s = vec![1; n];
+            s.push(last);
+            v.push(s);
+        }
+    }
+    v
 }
 
 /// Labels for a shape: label i is filled with the letter 'a'+(i%26), upper case for every 5th.
